@@ -604,3 +604,12 @@ Proof.
   split; [reflexivity|]. split; [vm_compute; auto|]. split; [reflexivity|]. split; [reflexivity|].
   vm_compute. intros [H|[]]. discriminate.
 Qed.
+
+Lemma iface_orig_refuted :
+  exists t n, wf_tree t /\ height t <= 2 /\
+              In n (iface_names_orig false true t) /\ go_ms t n = false /\
+              spec_methodb false true t n = false /\ ~ In n (iface_names false true t).
+Proof.
+  exists tree_S1, "Foo". destruct iface_orig_witness as [Hh [H1 [H2 [H3 H4]]]].
+  split; [exact tree_S1_wf|]. split; [rewrite Hh; auto|]. auto.
+Qed.
